@@ -238,6 +238,112 @@ def _eval_name_pred(test, var, name):
     return None
 
 
+def _fold_names(P, f, defs, expr, depth=0):
+    """list of strings an expression denotes when it is built from literals, module-level name tables, list concatenation and comprehensions that filter such a
+    list with string predicates (endswith/startswith/in/not in/==) - all constants of the program, folded; None otherwise"""
+    from ..loader import ConstInfo
+    if depth > 14:
+        return None
+    if isinstance(expr, (ast.List, ast.Tuple)) and all(isinstance(e, ast.Constant) and isinstance(e.value, str) for e in expr.elts):
+        return [e.value for e in expr.elts]
+    if isinstance(expr, (ast.Name, ast.Attribute)):
+        r = P.resolve_expr(f.module, expr, f)
+        if isinstance(r, ConstInfo):
+            v = P.const_value(r)
+            if isinstance(v, (list, tuple)) and all(isinstance(x, str) for x in v):
+                return list(v)
+        if isinstance(expr, ast.Name):
+            ds_ = [v for v, _i, loop_ in defs.defs.get(expr.id, []) if not loop_]
+            if len(ds_) == 1:
+                return _fold_names(P, f, defs, ds_[0], depth + 1)
+        return None
+    if isinstance(expr, ast.BinOp) and isinstance(expr.op, ast.Add):
+        a, b = _fold_names(P, f, defs, expr.left, depth + 1), _fold_names(P, f, defs, expr.right, depth + 1)
+        return None if a is None or b is None else a + b
+    if isinstance(expr, ast.ListComp) and len(expr.generators) == 1 and isinstance(expr.generators[0].target, ast.Name) and isinstance(expr.elt, ast.Name) and expr.elt.id == expr.generators[0].target.id:
+        g = expr.generators[0]
+        base = _fold_names(P, f, defs, g.iter, depth + 1)
+        if base is None:
+            return None
+        out = []
+        for nm in base:
+            keep = True
+            for cond in g.ifs:
+                # membership in the dataset (`name in ds.variables`) is a run-time fact: such a filter keeps every name that may be present
+                if isinstance(cond, ast.Compare) and len(cond.ops) == 1 and isinstance(cond.ops[0], ast.In) and isinstance(cond.left, ast.Name) and cond.left.id == g.target.id \
+                        and not isinstance(cond.comparators[0], (ast.Tuple, ast.List)) and _fold_names(P, f, defs, cond.comparators[0], depth + 1) is None:
+                    continue
+                if isinstance(cond, ast.Compare) and len(cond.ops) == 1 and isinstance(cond.ops[0], (ast.In, ast.NotIn)) and isinstance(cond.left, ast.Name) and cond.left.id == g.target.id:
+                    other = _fold_names(P, f, defs, cond.comparators[0], depth + 1)
+                    if other is None:
+                        return None
+                    r = (nm in other) == isinstance(cond.ops[0], ast.In)
+                else:
+                    r = _eval_name_pred(cond, g.target.id, nm)
+                if r is None:
+                    return None
+                keep = keep and r
+            if keep:
+                out.append(nm)
+        return out
+    return None
+
+
+def _remap_by_name_lists(run, P, f, defs, isel):
+    """second idiom of the routing in _slice_face_indices: explicit lists of names -  for n in <node-valued names>: ds[n] = renumbered ...;  ds.drop_vars(<stale names>)"""
+    fn = f.node
+    c0 = f"{f.key}:index-valued-variables"
+    from ..loader import ConstInfo
+
+    def _resolve(n):
+        r = P.resolve_expr(f.module, n, f)
+        return P.const_value(r) if isinstance(r, ConstInfo) else None
+    _CONST_RESOLVER[0] = _resolve
+    remap, remap_node, drop, drop_node = None, None, None, None
+    for st in iter_stmts(fn.body):
+        if isinstance(st, ast.For) and isinstance(st.target, ast.Name):
+            stores = [s_ for s_ in iter_stmts(st.body) if isinstance(s_, ast.Assign) and isinstance(s_.targets[0], ast.Subscript) and norm(s_.targets[0].slice) == st.target.id]
+            if stores:
+                v = _fold_names(P, f, defs, st.iter)
+                if v is not None:
+                    remap, remap_node = v, stores[0]
+        for n in ast.walk(st) if isinstance(st, (ast.Assign, ast.Expr)) else []:
+            if isinstance(n, ast.Call) and isinstance(n.func, ast.Attribute) and n.func.attr == "drop_vars" and n.args:
+                v = _fold_names(P, f, defs, n.args[0])
+                if v is not None:
+                    drop = (drop or []) + v
+                    drop_node = st
+    if remap is None or drop is None:
+        run.incomplete("F-TABLE/subgrid-remap", c0, where(f), "neither a loop over the grid's variables nor foldable lists of remapped / dropped names found")
+        return
+    ug = P.module("uxarray.conventions.ugrid")
+    ci = ug.defs.get("CONNECTIVITY_NAMES")
+    v = P.const_value(ci) if ci is not None else None
+    names = sorted({x for x in (v or []) if isinstance(x, str)} | {"hole_edge_indices"})
+    if not v:
+        run.incomplete("F-TABLE/subgrid-remap", c0, where(f), "CONNECTIVITY_NAMES not found in conventions/ugrid.py")
+        return
+    run.stats["index_valued_schema_variables"] = names
+    for nm in ["edge_face_distances"]:
+        c = f"{f.key}:route[{nm}]"
+        if nm in drop:
+            run.holds("F-TABLE/subgrid-remap", c, where(f, drop_node), f"{nm} (depends on both faces of an edge) is dropped and recomputed for the subset")
+        else:
+            run.violation("F-TABLE/subgrid-remap", c, where(f, drop_node), f"{nm} is carried over to the subset: an edge that lost one of its faces keeps the distance between the source grid's two faces instead of 0")
+    for nm in names:
+        c = f"{f.key}:route[{nm}]"
+        if nm in remap and not nm.endswith("_node_connectivity"):
+            run.violation("F-TABLE/subgrid-remap", c, where(f, remap_node), f"{nm} is remapped with the NODE index map although its values are not node indices")
+        elif nm in remap:
+            run.holds("F-TABLE/subgrid-remap", c, where(f, remap_node), f"{nm}: remap")
+        elif nm in drop:
+            run.holds("F-TABLE/subgrid-remap", c, where(f, drop_node), f"{nm}: drop")
+        else:
+            run.violation("F-TABLE/subgrid-remap", c, where(f, drop_node), f"{nm} (its values index a grid dimension) is in neither list ({len(remap)} remapped, {len(drop)} dropped names): the subset keeps indices of the "
+                          "source grid's numbering for it")
+    run.incomplete("F-TABLE/subgrid-remap", f"{f.key}:node-remap", where(f, remap_node), "the renumbering itself (fill value passthrough, attrs) is not re-checked for the name-list idiom")
+
+
 def _remap(run, P, f, defs, isel):
     fn = f.node
     loop = None
@@ -246,7 +352,7 @@ def _remap(run, P, f, defs, isel):
             loop = st
     c0 = f"{f.key}:index-valued-variables"
     if loop is None:
-        run.incomplete("F-TABLE/subgrid-remap", c0, where(f), "loop over the grid's variables not found")
+        _remap_by_name_lists(run, P, f, defs, isel)
         return
     var = loop.target.id
     from ..loader import ConstInfo
